@@ -393,6 +393,17 @@ static void emit_function(raw_ostream& o, Function& F) {
           continue;
         }
         unsigned w = t->getIntegerBitWidth();
+        // pointer difference: sub(ptrtoint a, ptrtoint b) is emitted as a C pointer subtraction so that cbmc's simplifier can fold it
+        // (integer casts of pointers are opaque to it, which makes every size()/capacity() computation symbolic)
+        if (bo->getOpcode() == Instruction::Sub && w == 64) {
+          auto* pa = dyn_cast<PtrToIntOperator>(bo->getOperand(0)); auto* pb = dyn_cast<PtrToIntOperator>(bo->getOperand(1));
+          if (pa && pb) {
+            std::string A = cexpr(pa->getPointerOperand(), &cx), B = cexpr(pb->getPointerOperand(), &cx);
+            // equal pointers (e.g. NULL - NULL of an empty std::vector, legal in LLVM/C++) give 0 without forming a C pointer difference
+            o << "  " << lhs << "((const void*)" << A << " == (const void*)" << B << " ? (uint64_t)0 : (uint64_t)((uint8_t*)" << A << " - (uint8_t*)" << B << "));\n";
+            continue;
+          }
+        }
         std::string a = op(0), b = op(1), e;
         switch (bo->getOpcode()) {
           case Instruction::Add: e = a + "+" + b; break;
@@ -417,7 +428,13 @@ static void emit_function(raw_ostream& o, Function& F) {
       if (auto* ic = dyn_cast<ICmpInst>(&I)) {
         Type* ot = ic->getOperand(0)->getType();
         std::string a = op(0), b = op(1);
-        if (ot->isPointerTy()) { a = "(uintptr_t)" + a; b = "(uintptr_t)" + b; }
+        if (ot->isPointerTy()) {
+          if (ic->getPredicate() == CmpInst::ICMP_EQ || ic->getPredicate() == CmpInst::ICMP_NE) {   // plain pointer (in)equality: foldable by cbmc
+            o << "  " << lhs << "((const void*)" << a << (ic->getPredicate() == CmpInst::ICMP_EQ ? " == " : " != ") << "(const void*)" << b << ");\n";
+            continue;
+          }
+          a = "(uintptr_t)" + a; b = "(uintptr_t)" + b;
+        }
         unsigned w = ot->isPointerTy() ? 64 : ot->getIntegerBitWidth();
         const char* s = nullptr; bool sg = false;
         switch (ic->getPredicate()) {
